@@ -17,6 +17,10 @@ VERIF = os.path.dirname(os.path.dirname(os.path.abspath(__file__)))
 REPO = os.environ.get("VERIF_REPO", "/repo")
 BUILD = os.path.join(VERIF, "build")
 CXX = "clang++"
+# Runs against another checkout (VERIF_REPO=...: sensitivity experiments) keep their scratch output and their
+# evidence apart from the runs against /repo, so that they can go on concurrently and never touch /verif/evidence.
+ALT = "" if os.path.abspath(REPO) == "/repo" else "-" + hashlib.sha1(os.path.abspath(REPO).encode()).hexdigest()[:8]
+RUN_ROOT = os.path.join(BUILD, "run" + ALT)
 
 COMMON = ["-std=c++20", "-g", "-fno-omit-frame-pointer", "-w", "-DPHOSG_VERIF=1"]
 SAN = ["-fsanitize=address,undefined", "-fno-sanitize-recover=undefined",
@@ -183,6 +187,10 @@ def build_harness(src_rel, flavor="asan", extra_flags=(), extra_link=(), extra_s
     name = os.path.splitext(os.path.basename(src_rel))[0]
     exe = os.path.join(bindir, "%s-%s-%s" % (name, flavor, key))
     if os.path.exists(exe):
+        try:
+            os.utime(exe, None)  # LRU stamp
+        except OSError:
+            pass
         return exe
     with Lock("h-" + name):
         if os.path.exists(exe):
@@ -197,13 +205,7 @@ def build_harness(src_rel, flavor="asan", extra_flags=(), extra_link=(), extra_s
         cmd += ["-lz", "-lpthread", "-o", tmp]
         _run(cmd, src_rel)
         os.rename(tmp, exe)
-        # drop stale binaries of the same harness/flavor
-        for f in os.listdir(bindir):
-            if f.startswith("%s-%s-" % (name, flavor)) and os.path.join(bindir, f) != exe and ".tmp" not in f:
-                try:
-                    os.unlink(os.path.join(bindir, f))
-                except OSError:
-                    pass
+        _gc(bindir, {exe}, 160, 120)
     return exe
 
 
